@@ -38,6 +38,7 @@ PATTERNS = [
     ("singleton_by_value", r"is a singleton and can't be moved out of `ApplicationState`"),
     # the borrow checker of a request pipeline (C01/C02, not modelled here) can get there first
     ("by_value_borrowck", r"components that take `[^`]+` as an input parameter, consuming it by value"),
+    ("cross_stage_borrowck", r"consumes `[^`]+` by value - But, later on, the same type is used in the call graph of"),
     ("mut_singleton", r"You can't inject a mutable reference to a singleton"),
     ("mut_transient", r"You can't inject a mutable reference to a transient type"),
     ("mut_cloneable", r"has been marked `CloneIfNecessary`"),
@@ -117,6 +118,7 @@ IDENT = {
     "route_method_conflict": r"different request handlers for `([A-Z]+) ([^`]+)` requests",
     "route_path_conflict": r"This route path, `([^`]+)`, conflicts with the path of another route you already registered, `([^`]+)`",
     "by_value_borrowck": r"components that take `([^`]+)` as an input parameter, consuming it by value",
+    "cross_stage_borrowck": r"consumes `([^`]+)` by value - But, later on",
     "path_param": r"extract path parameters using `PathParams<([^`>]+)>`\. .*?(?:that appear in|path parameters in) `([^`]+)`",
 }
 
@@ -441,6 +443,7 @@ def run(R):
         # correspondence: kinds printed by pavexc == kinds of the model's `check`
         if k < len(mouts) and mouts[k].get("r") == "ok":
             mk = {d[0] for d in mouts[k]["check"]}
+            dropped_cs = False
             truncated = len(o["out"]) >= 5990   # the stage keeps the last 6000 characters of pavexc's output
             if verdict == "rejected" and "by_value_borrowck" in ik and mk == {"singleton_by_value"}:
                 # outside the model: the borrow checker of the pipeline refused the by-value use of the same
@@ -450,12 +453,24 @@ def run(R):
                 if bt & mt:
                     preempted += 1
                     continue
+            if verdict == "rejected" and "cross_stage_borrowck" in ik and "singleton_by_value" in mk:
+                # outside the model as well: the cross-stage borrow checker (complex_borrow_check) objects to the same
+                # by-value use of the never-clone singleton, in addition to the rule's own diagnostic
+                bt = {x[1] for x in identify_impl(o["out"]) if x[0] == "cross_stage_borrowck"}
+                mt = {x[2] for x in identify_model(adb, mouts[k]) if x[0] == "singleton_by_value"}
+                if bt and bt <= mt:
+                    preempted += 1
+                    ik = ik - {"cross_stage_borrowck"}
+                    impl_kinds = [x for x in impl_kinds if x != "cross_stage_borrowck"]
+                    dropped_cs = True
             if verdict in ("rejected", "accepted") and mk != ik and not (truncated and ik <= mk):
                 disagreements.append({"program": o["name"], "rule": rule, "model": sorted(mk), "pavexc": sorted(ik),
                                       "model_out": mouts[k], "abstract_db": adb, "failed_oracle": bool(why)})
             elif verdict == "rejected" and not rule.startswith("corpus:"):
                 # second level: the diagnostics are about the same components / types / routes
                 im, mm = identify_impl(o["out"]), identify_model(adb, mouts[k])
+                if dropped_cs:
+                    im = {x for x in im if x[0] != "cross_stage_borrowck"}
                 ident_compared += 1
                 if truncated and im <= mm:
                     mm = im   # reports cut off by the stage: what is left must be among the model's
